@@ -1,2 +1,108 @@
-def run_selftest(prop, root):
-    return {"summary": {}, "lines": [], "failed": 0, "failed_names": []}
+"""Self-validation of the rules (thorough tier): breaking variants must be reported, benign variants
+must stay silent.  Variants are textual edits applied to a scratch copy of the analysed tree (outside
+/repo and /verif), analysed in-process and deleted.  Results are evidence (`coverage.selftest`) and are
+printed as `selftest:` lines -- never in the VIOLATION format, which is reserved for /repo."""
+import json
+import os
+import shutil
+import tempfile
+from concurrent.futures import ProcessPoolExecutor
+
+from .core import VERIF
+from .srcmodel import AnalysisError
+
+
+def load_variants():
+    p = os.path.join(VERIF, "selftest", "variants.json")
+    with open(p) as fh:
+        return json.load(fh)
+
+
+def _scratch(root):
+    base = "/dev/shm" if os.path.isdir("/dev/shm") else tempfile.gettempdir()
+    d = tempfile.mkdtemp(prefix="xoverif_st_", dir=base)
+    shutil.copytree(os.path.join(root, "xobjects"), os.path.join(d, "xobjects"), ignore=shutil.ignore_patterns("__pycache__"))
+    for rel in ("Architecture.md", "docs/architecture/types.rst"):
+        src = os.path.join(root, rel)
+        if os.path.isfile(src):
+            os.makedirs(os.path.dirname(os.path.join(d, rel)), exist_ok=True)
+            shutil.copy(src, os.path.join(d, rel))
+    return d
+
+
+def run_variant(args):
+    v, prop, root = args
+    from . import core
+    from .check import load_rules
+    from .srcmodel import Model
+
+    load_rules()
+    d = _scratch(root)
+    try:
+        for ed in v["edits"]:
+            p = os.path.join(d, ed["file"])
+            s = open(p, encoding="utf8").read()
+            if s.count(ed["find"]) != 1:
+                return (v["id"], "stale", f"`{ed['find'][:50]}` occurs {s.count(ed['find'])}x in {ed['file']}")
+            s = s.replace(ed["find"], ed["replace"])
+            open(p, "w", encoding="utf8").write(s)
+        try:
+            compile(open(p, encoding="utf8").read(), p, "exec")
+        except SyntaxError as e:
+            return (v["id"], "stale", f"variant does not compile: {e}")
+        model = Model(d)
+        insts, errors, _ = core.run_rules(model, prop, "quick")
+        bad = [i for i in insts if i.verdict == core.BAD]
+        if v["expect"] == "detect":
+            if bad:
+                want = v.get("rule")
+                if want and not any(i.rule.split(".")[0] == want or i.rule == want for i in bad):
+                    return (v["id"], "wrong-rule", f"reported by {sorted({i.rule for i in bad})}, expected {want}")
+                return (v["id"], "detected", bad[0].rule + ": " + (bad[0].detail or bad[0].construct)[:120])
+            if errors:
+                return (v["id"], "analysis-error", errors[0][:160])
+            return (v["id"], "missed", "")
+        else:
+            if bad:
+                return (v["id"], "false-alarm", bad[0].rule + ": " + (bad[0].detail or bad[0].construct)[:120])
+            if errors:
+                return (v["id"], "analysis-error", errors[0][:160])
+            return (v["id"], "silent", "")
+    finally:
+        shutil.rmtree(d, ignore_errors=True)
+
+
+def run_selftest(prop, root, jobs=16):
+    vs = [v for v in load_variants() if prop in v["props"]]
+    lines, failed, names = [], 0, []
+    out = {"detected": 0, "silent": 0, "missed": 0, "false-alarm": 0, "stale": 0, "analysis-error": 0, "wrong-rule": 0}
+    if not vs:
+        return {"summary": {"variants": 0}, "lines": [], "failed": 0, "failed_names": []}
+    with ProcessPoolExecutor(max_workers=min(jobs, len(vs))) as ex:
+        res = list(ex.map(run_variant, [(v, prop, root) for v in vs]))
+    for vid, status, msg in res:
+        out[status] = out.get(status, 0) + 1
+        lines.append(f"selftest: variant {vid} {status} {msg}")
+        if status not in ("detected", "silent"):
+            failed += 1
+            names.append(f"{vid}:{status}")
+    summary = {"variants": len(vs), **out}
+    return {"summary": summary, "lines": lines, "failed": failed, "failed_names": names}
+
+
+if __name__ == "__main__":
+    import sys
+
+    from .check import load_rules
+
+    load_rules()
+    props = sys.argv[1:] or sorted({p for v in load_variants() for p in v["props"]})
+    tot = 0
+    for p in props:
+        r = run_selftest(p, "/repo")
+        bad = [l for l in r["lines"] if not (" detected " in l or " silent " in l)]
+        print(p, r["summary"])
+        for l in bad:
+            print("   ", l)
+        tot += r["failed"]
+    sys.exit(1 if tot else 0)
